@@ -170,6 +170,15 @@ def undecodable(hbh=1, size=40) -> bytes:
     return hdr_bytes(272, 0x80, 4, hbh, hbh, size) + body
 
 
+def undecodable2(hbh=1, size=40) -> bytes:
+    """A correctly framed CER whose Vendor-Specific-Application-Id (grouped) has a payload that is no AVP sequence: the AVP
+    framing of the message is fine, the conversion into the typed command fails (AvpDecodeError, not a packer error)."""
+    assert size >= 32 and size % 4 == 0
+    n = size - 28
+    body = struct.pack(">II", 260, (0x40 << 24) | (8 + n)) + b"\xAB" * n
+    return hdr_bytes(257, 0x80, 0, hbh, hbh, size) + body
+
+
 # ----------------------------------------------------------------------
 def split_frames(buf: bytes):
     """Split a byte log written by the node into whole frames (plus remainder)."""
